@@ -633,6 +633,36 @@ def flow_entries():
                     "Result<(u8, u8), (u8, u8)>",
                     "match r { Ok(p) => Err(p), Err(p) => Ok(p) }",
                     lambda r: [(True, ok(venum(1 - r[1], r[3][r[1]])))], tags=("flow",)))
+    # destructure-and-rebuild maps: every way to rebuild a 3-tuple / 2-member struct from the
+    # members of a destructured value of the same type (identity, permutations, repetitions)
+    names3 = ["a", "b", "c"]
+    for mp in itertools.product(range(3), repeat=3):
+        body = "let (a, b, c) = t; (" + ", ".join(names3[j] for j in mp) + ")"
+        E.append(BEntry("flow_rebuild3_" + "".join(map(str, mp)),
+                        [("t", "(felt252, felt252, felt252)")], "(felt252, felt252, felt252)", body,
+                        (lambda mp: lambda t: [(True, ok(vtuple(*[t[1][j] for j in mp])))])(mp),
+                        tags=("flow",)))
+    for mp in itertools.product(range(2), repeat=2):
+        nm = "".join(map(str, mp))
+        xy = ["x", "y"]
+        E.append(BEntry("flow_rebuild_pt_" + nm, [("p", "Pt")], "Pt",
+                        f"let Pt {{ x, y }} = p; Pt {{ x: {xy[mp[0]]}, y: {xy[mp[1]]} }}",
+                        (lambda mp: lambda p: [(True, ok(vtuple(*[p[1][j] for j in mp])))])(mp),
+                        tags=("flow",)))
+        E.append(BEntry("flow_rebuild_pt_some_" + nm, [("p", "Pt")], "Option<Pt>",
+                        f"let Pt {{ x, y }} = p; Some(Pt {{ x: {xy[mp[0]]}, y: {xy[mp[1]]} }})",
+                        (lambda mp: lambda p: [(True, ok(some(vtuple(*[p[1][j] for j in mp]))))])(mp),
+                        tags=("flow",)))
+        E.append(BEntry("flow_rebuild_nested_" + nm, [("o", "Out2")], "Out2",
+                        "let Out2 { a, k } = o; let In2 { m, n } = a; "
+                        f"Out2 {{ a: In2 {{ m: {['m', 'n'][mp[0]]}, n: {['m', 'n'][mp[1]]} }}, k }}",
+                        (lambda mp: lambda o: [(True, ok(vtuple(vtuple(*[o[1][0][1][j] for j in mp]),
+                                                               o[1][1])))])(mp),
+                        tags=("flow",)))
+    E.append(BEntry("flow_rebuild_match_arm", [("o", "Option<(u8, u8)>")], "Option<(u8, u8)>",
+                    "match o { Some((a, b)) => Some((b, a)), None => None }",
+                    lambda o: [(True, ok(some(vtuple(o[3][0][1][1], o[3][0][1][0])) if o[1] == 0
+                                         else none()))], tags=("flow",)))
     E.append(BEntry("flow_return_in_match", [("o", "Option<u8>"), ("d", "u8")], "u8",
                     "let v = match o { Some(v) => v, None => { return d; } }; if v == d { return 7; } "
                     "v",
